@@ -66,11 +66,15 @@ def exact_part(ck, rng, thorough):
     n = 600 if thorough else 150
     worst_ratio = F(0)
     notconv = 0
+    budget_hits = [0]
     for i in range(n):
         cfg, u0, nsteps, (lam, c, lamE) = gen_cfg(rng, thorough)
         try:
             C, uend, stats, log = er.run(cfg, u0, F(0), cfg['dt'] * nsteps, deep=True)
         except ZeroDivisionError:
+            continue
+        except er.RunBudgetExceeded:
+            budget_hits[0] += 1
             continue
         kind = cfg['kind']
         L0 = C.MS[0].levels[0]
@@ -126,6 +130,11 @@ def exact_part(ck, rng, thorough):
         if list(uend.v) != prev_end:
             ck.violation('run() does not return the end value of the last step', meta, match={'kind': 'return_value'})
     ck.cov['exact_runs_not_converged_within_maxiter'] = notconv
+    ck.cov['exact_runs_over_time_budget'] = budget_hits[0]
+    if budget_hits[0] + notconv > n // 2:
+        ck.violation('most exact runs no longer converge / finish in time (%d not converged, %d over the time budget of %d): the property cannot be established'
+                     % (notconv, budget_hits[0], n), {'not_converged': notconv, 'over_budget': budget_hits[0], 'runs': n},
+                     match={'kind': 'runs_do_not_converge'}, no_input=True)
     ck.cov['worst_error_over_bound'] = float(worst_ratio)
 
 
